@@ -96,7 +96,14 @@ func ConstructMessageFromUnits(
 
 	merkleRoot, merkleTree := merkle.New(shards)
 
-	messageRoot := units[0].MessageRoot
+	// Every received unit carries the signed message root; shard 0 may be among the missing ones.
+	var messageRoot MessageRoot
+	for _, unit := range units {
+		if unit != nil {
+			messageRoot = unit.MessageRoot
+			break
+		}
+	}
 	expectedRoot := MessageRoot(merkleRoot)
 	if messageRoot != expectedRoot {
 		// todo(rdr): probably need to write string methods for the MessageRoot type
